@@ -48,6 +48,16 @@ func init() {
 				pg = gen.Mix(r, p)
 			}
 			pg.Steps = append(pg.Steps, prog.Step{K: prog.SReopen})
+			if r.Bool(0.3) {
+				// the application is reconfigured between two runs: another
+				// SegmentSize from a reopen on (the files written so far keep
+				// their sizes)
+				for i := range pg.Steps {
+					if pg.Steps[i].K == prog.SReopen && r.Bool(0.6) {
+						pg.Steps[i].Seg = []int64{128, 192, 256, 400, 512, 1024}[r.Intn(6)]
+					}
+				}
+			}
 			pg.Renumber()
 			return pg
 		},
